@@ -36,7 +36,7 @@ def signature(v) -> str:
 
 
 class Outcome:
-    __slots__ = ("status", "canon", "value", "lines", "ws", "fault_site", "evict_site", "exc")
+    __slots__ = ("status", "canon", "value", "lines", "ws", "wsk", "fault_site", "evict_site", "exc")
 
     def __init__(self):
         self.status = "ok"      # ok | skipped | budget | faulted
@@ -44,6 +44,7 @@ class Outcome:
         self.value = None
         self.lines = 0
         self.ws = None
+        self.wsk = None
         self.fault_site = None
         self.evict_site = None
         self.exc = None
@@ -57,7 +58,7 @@ def flatten_outputs(value) -> list:
     return []
 
 
-def exec_step(world: W.World, step: dict, ctx: seam.Ctx, fault=None, fp=False, evict=None) -> Outcome:
+def exec_step(world: W.World, step: dict, ctx: seam.Ctx, fault=None, fp=False, evict=None, force_at=-1) -> Outcome:
     """Run one catalogue step against the world under the seam. Never raises (except harness bugs)."""
     out = Outcome()
     name = step["op"]
@@ -80,6 +81,7 @@ def exec_step(world: W.World, step: dict, ctx: seam.Ctx, fault=None, fp=False, e
         ctx.evict_at = evict["at"]
         w = evict["which"]
         ctx.evict_fn = lambda: W.evict_caches(w)
+    ctx.force_at = force_at
     ctx.begin()
     try:
         if fp:
@@ -104,6 +106,7 @@ def exec_step(world: W.World, step: dict, ctx: seam.Ctx, fault=None, fp=False, e
         out.exc = e
     if ctx.trace_ws:
         out.ws = ctx.ws_ordinals
+        out.wsk = ctx.ws_events
     out.canon = snapshot.canon(out.value)
     if out.fault_site is not None or fp or out.evict_site is not None:
         out.status = "faulted"  # the faulted step's own outcome is unconstrained
@@ -276,7 +279,7 @@ def golden_run(case: dict, rng: random.Random | None, stats: dict) -> tuple[list
             history.append(h)
             continue
         out = exec_step(world, step, ctx)
-        h["status"], h["ans"], h["lines"], h["ws"] = out.status, out.canon, out.lines, out.ws
+        h["status"], h["ans"], h["lines"], h["ws"], h["wsk"] = out.status, out.canon, out.lines, out.ws, out.wsk
         history.append(h)
         stats["steps"] += 1
         stats["lines"] += out.lines
@@ -363,14 +366,32 @@ def gen_plan(rng: random.Random, cfg: dict, history: list[dict], config: str) ->
     if config in ("seq_env", "seq_async", "preempt_all") and n == 0:
         n = 1
     used = set()
+    # directed part: one write-site of the working tree is this run's target; if the golden run reached it, faults
+    # and forced switches are aimed right before and right after it
+    sites = sorted(seam.WRITE_SITES)
+    target = sites[rng.randrange(len(sites))] if sites else None
+    hits = [(h, o) for h in cand for (o, key) in (h.get("wsk") or []) if tuple(key) == target]
+    plan["target_site"] = seam.site_str(target) if target else None
+    plan["switch_at"] = []
+    if hits and plan["exec"] == "preempt":
+        for h, o in rng.sample(hits, min(2, len(hits))):
+            after = [w for w in (h.get("ws") or []) if w > o]
+            plan["switch_at"].append({"step": h["i"], "at": after[0] if after and rng.random() < 0.7 else o})
     for _ in range(n):
-        h = rng.choice(cand)
+        aimed = None
+        if hits and rng.random() < 0.6:
+            h, o = rng.choice(hits)
+            after = [w for w in (h.get("ws") or []) if w > o]
+            aimed = after[0] if after and rng.random() < 0.5 else o
+        else:
+            h = rng.choice(cand)
         if h["i"] in used:
             continue
         used.add(h["i"])
         k = rng.choice(kinds)
         ws = h.get("ws") or []
-        at = rng.choice(ws) if ws and rng.random() < cfg["p_ws_aim"] else rng.randint(1, h["lines"])
+        at = aimed if aimed is not None else (
+            rng.choice(ws) if ws and rng.random() < cfg["p_ws_aim"] else rng.randint(1, h["lines"]))
         if k == "fp_trap":
             plan["fp"].append(h["i"])
         elif k == "cache_evict":
@@ -516,8 +537,11 @@ def preempt_run(case: dict, plan: dict, golden: list[dict], stats: dict):
     done_steps: set[int] = set()
     results: dict[int, Outcome] = {}
 
+    forced = {x["step"]: x["at"] for x in plan.get("switch_at", [])}
+
     def exec_fn(g, ctx):
-        out = exec_step(world, g, ctx, fault=faults.get(g["i"]), fp=g["i"] in fps, evict=evicts.get(g["i"]))
+        out = exec_step(world, g, ctx, fault=faults.get(g["i"]), fp=g["i"] in fps, evict=evicts.get(g["i"]),
+                        force_at=forced.get(g["i"], -1))
         if out.status == "ok":
             store_outputs(world, g, out)
         results[g["i"]] = out
